@@ -350,6 +350,10 @@ IRREGULAR = {
     "thirds": [0.1, 0.3, 0.30000000000000004, 0.7, 1.9, 2.0, 59.94],
     "squares": [0.0, 1.0, 4.0, 9.0, 16.0, 25.0, 36.0, 49.0, 64.0, 81.0, 100.0, 121.0],
     "two": [-3.0, 22050.5],
+    # every k-th sample of a range axis, taken with isel: xarray keeps the coordinate's attributes, so the axis still advertises the
+    # step of the axis it was cut from; look-ups are defined by the coordinates
+    "decimated2": None,
+    "decimated3": None,
 }
 
 
@@ -357,6 +361,12 @@ def run_index(case):
     out = Out(case)
     if case.get("irregular"):
         # a strictly increasing axis that is not regularly spaced (band edges, event times): the look-up is defined by the coordinates
+        if case["irregular"].startswith("decimated"):
+            k = int(case["irregular"][-1])
+            full = am.lattice_floats(0.5, 0.25, 24)
+            arr = make_axis_array(full, 0.25).isel(x=slice(None, None, k))
+            coords = [float(v) for v in arr.coords["x"].data]
+            return _run_index_on(out, coords, 0.25 * k, len(coords), [arr])
         coords = list(IRREGULAR[case["irregular"]])
         start, n = coords[0], len(coords)
         step = min(b - a for a, b in zip(coords, coords[1:]))
